@@ -293,7 +293,7 @@ def run(ctx):
         ctx.evaluations += r["n"]
         ctx.count("check_cli_runs", r["n"])
         total["bad"] += r["bad"]
-    bsample = ["-", "--", "-.-", "@-", "v", "1.2.3", "1.0", "stdin", "/dev/stdin"] + rng.sample(sample, 400 if quick else 12000)      # `-` means "read stdin" to many tools
+    bsample = 2 * ["-", "--", "-.-", "@-", "v", "1.2.3", "1.0", "stdin", "/dev/stdin"] + rng.sample(sample, 400 if quick else 12000)      # `-` means "read stdin" to many tools
     res4 = core.pmap(work_check_binary, [(ctx.bins, l) for l in core.split_even(bsample, 16)])
     for r in res4:
         ctx.evaluations += r["n"]
